@@ -91,6 +91,7 @@ impl Property for C05 {
             spec_ops: true,
             ctx_dependent: true,
             max_variadic: 2,
+            giant: false,
         };
         if free {
             let mut g = Gen::new(rng, cfg);
@@ -385,12 +386,12 @@ impl Property for C05 {
             c.insts.drain(..n / 2);
             out.push(c);
         }
-        for j in (0..n).rev() {
+        for j in shrink_indices(n) {
             let mut c = t.clone();
             c.insts.remove(j);
             out.push(c);
         }
-        for j in 0..n {
+        for j in 0..n.min(300) {
             // simplify operands: drop strings / trailing operands is unsafe for grammar validity; only shorten strings
             for (k, o) in t.insts[j].ops.iter().enumerate() {
                 if let MOp::S(s) = o {
